@@ -255,6 +255,32 @@ def const_str(src, name):
     return m.group(1)
 
 
+ERRORS = []
+
+
+class section:
+    """one independent group of facts: when it cannot be translated the facts are simply missing from Extracted.v
+    (so exactly the Coq files that use them stop compiling) and the reason is reported, instead of the whole
+    translation failing; a later section that needs a variable of a failed one is dropped the same way"""
+
+    def __init__(self, L, name):
+        self.L, self.name = L, name
+
+    def __enter__(self):
+        self.mark = len(self.L)
+        return self
+
+    def __exit__(self, et, ev, tb):
+        if et is not None and issubclass(et, (TranslateError, NameError)):
+            del self.L[self.mark:]
+            reason = str(ev).replace("*)", "* )")
+            self.L.append(f"(* NOT TRANSLATED — {self.name}: {reason} *)")
+            self.L.append("")
+            ERRORS.append(f"{self.name}: {ev}")
+            return True
+        return False
+
+
 def main(out_path):
     resolver = strip_comments(read("src/resolver.rs"))
     mainrs = strip_comments(read("src/main.rs"))
@@ -268,541 +294,558 @@ def main(out_path):
     L.append("Import ListNotations.")
     L.append("Local Open Scope N_scope.\n")
 
-    # --- CaveatLevel order
-    sfp = fn_body(resolver, "search_for_path")
-    cav = enum_variants(sfp, "CaveatLevel")
-    expected = {"None", "NonImportableAudit", "PreferredExemption", "PreferredUnpublished",
-                "FreshPublisher", "FreshImport", "Exemption", "Unpublished", "FreshExemption"}
-    if set(cav) != expected:
-        raise TranslateError(f"CaveatLevel variants changed: {cav}")
-    L.append("(* enum CaveatLevel, in declaration (= derived Ord) order *)")
-    for i, v in enumerate(cav):
-        L.append(f"Definition CV_{v} : N := {i}.")
-    L.append("")
+    with section(L, "CaveatLevel order"):
+        pass
+        sfp = fn_body(resolver, "search_for_path")
+        cav = enum_variants(sfp, "CaveatLevel")
+        expected = {"None", "NonImportableAudit", "PreferredExemption", "PreferredUnpublished",
+                    "FreshPublisher", "FreshImport", "Exemption", "Unpublished", "FreshExemption"}
+        if set(cav) != expected:
+            raise TranslateError(f"CaveatLevel variants changed: {cav}")
+        L.append("(* enum CaveatLevel, in declaration (= derived Ord) order *)")
+        for i, v in enumerate(cav):
+            L.append(f"Definition CV_{v} : N := {i}.")
+        L.append("")
 
-    # --- heap key tuple order
-    m = re.search(r"Reverse\(\(", sfp)
-    if not m:
-        raise TranslateError("cannot find Node::key tuple")
-    op = m.end() - 1
-    cp = match_brace(sfp, op, "(", ")")
-    key = [re.sub(r"\s+", "", x) for x in split_top(sfp[op + 1:cp]) if x.strip()]
-    want_key = ["self.caveat_level", "self.version", "self.exemption_origin_version()",
-                "self.path.len()", "self.path.last()"]
-    if key != want_key:
-        raise TranslateError(f"heap key changed: {key}")
-    L.append("(* Node::key is Reverse((caveat_level, version, exemption_origin_version, path.len(), path.last())) *)")
-    L.append("Definition HEAP_KEY_PRIMARY_IS_CAVEAT : bool := true.\n")
-
-    # --- DeltaEdgeOrigin / RequiredEntry orders
-    deo = enum_variants(resolver, "DeltaEdgeOrigin")
-    want = ["StoredLocalAudit", "ImportedAudit", "WildcardAudit", "Trusted", "Exemption",
-            "Unpublished", "FreshExemption"]
-    if sorted(deo) != sorted(want):
-        raise TranslateError(f"DeltaEdgeOrigin variants changed: {deo}")
-    L.append("(* enum DeltaEdgeOrigin declaration order (derived Ord) *)")
-    for i, v in enumerate(deo):
-        L.append(f"Definition DEO_{v} : N := {i}.")
-    L.append("")
-    req = enum_variants(resolver, "RequiredEntry")
-    want = ["LocalAudit", "Audit", "WildcardAudit", "Publisher", "Exemption", "Unpublished", "FreshExemption"]
-    if sorted(req) != sorted(want):
-        raise TranslateError(f"RequiredEntry variants changed: {req}")
-    L.append("(* enum RequiredEntry declaration order (derived Ord) *)")
-    for i, v in enumerate(req):
-        L.append(f"Definition RE_{v} : N := {i}.")
-    L.append(f"Definition RE_FreshExemption_is_last : bool := {'true' if req[-1] == 'FreshExemption' else 'false'}.\n")
-
-    # --- search modes + UpdateMode literals
-    sm = enum_variants(resolver, "SearchMode")
-    if sm != ["PreferExemptions", "PreferFreshImports", "RegenerateExemptions"]:
-        raise TranslateError(f"SearchMode variants changed: {sm}")
-    L.append("Inductive search_mode := PreferExemptions | PreferFreshImports | RegenerateExemptions.")
-    L.append("Record update_mode := { um_search : search_mode; um_prune_exemptions : bool;")
-    L.append("                        um_prune_audits : bool; um_prune_imports : bool }.\n")
-
-    def one(fn, name, params=()):
-        ms = update_modes(fn_body(mainrs, fn), fn)
-        if len(ms) != 1:
-            raise TranslateError(f"expected one UpdateMode literal in {fn}, found {len(ms)}")
-        L.append(f"(* {fn} *)")
-        L.append(coq_mode(name, params, ms[0]))
-
-    one("cmd_init", "mode_init")
-    one("do_cmd_certify", "mode_certify", ("is_target",))
-    one("cmd_import", "mode_import")
-    one("apply_cmd_trust", "mode_trust", ("is_target",))
-    one("cmd_regenerate_imports", "mode_regenerate_imports")
-    one("cmd_regenerate_unpublished", "mode_regenerate_unpublished")
-    one("cmd_regenerate_exemptions", "mode_regenerate_exemptions")
-    one("cmd_prune", "mode_prune", ("no_imports", "no_exemptions", "no_audits"))
-    ms = update_modes(fn_body(mainrs, "cmd_check"), "cmd_check")
-    if len(ms) != 2:
-        raise TranslateError(f"expected two UpdateMode literals in cmd_check, found {len(ms)}")
-    L.append("(* cmd_check: the advisory get_store_updates, then the real update_store *)")
-    L.append(coq_mode("mode_check_advice", (), ms[0]))
-    L.append(coq_mode("mode_check_update", (), ms[1]))
-    # cmd_check commits only when the report has no errors
-    chk = fn_body(mainrs, "cmd_check")
-    if not re.search(r"if\s+report\.has_errors\(\)\s*\{\s*panic_any\(ExitPanic\(-1\)\);\s*\}\s*else\s*\{", chk):
-        raise TranslateError("cmd_check no longer has the `if report.has_errors() { panic_any(ExitPanic(-1)) } else {` shape")
-    L.append("Definition CHECK_COMMITS_ONLY_ON_SUCCESS : bool := true.\n")
-
-    # --- criteria constants
-    if not re.search(r"const\s+MAX_CRITERIA\s*:\s*usize\s*=\s*u64::BITS\s+as\s+usize", criteria):
-        raise TranslateError("MAX_CRITERIA is no longer u64::BITS")
-    if not re.search(r"pub\s+struct\s+CriteriaSet\(u64\)", criteria):
-        raise TranslateError("CriteriaSet is no longer a u64")
-    L.append("Definition MAX_CRITERIA : nat := 64.")
-    m1 = re.search(r"const\s+SAFE_TO_RUN_IDX\s*:\s*usize\s*=\s*(\d+)", criteria)
-    m2 = re.search(r"const\s+SAFE_TO_DEPLOY_IDX\s*:\s*usize\s*=\s*(\d+)", criteria)
-    if not m1 or not m2:
-        raise TranslateError("builtin criteria indices not found")
-    L.append(f"Definition SAFE_TO_RUN_IDX : N := {m1.group(1)}.")
-    L.append(f"Definition SAFE_TO_DEPLOY_IDX : N := {m2.group(1)}.")
-    if not re.search(r"direct_implies\[SAFE_TO_DEPLOY_IDX\]\.set_criteria\(SAFE_TO_RUN_IDX\)", criteria):
-        raise TranslateError("safe-to-deploy => safe-to-run pre-population not found")
-    idx = {"SAFE_TO_RUN": "SAFE_TO_RUN_IDX", "SAFE_TO_DEPLOY": "SAFE_TO_DEPLOY_IDX"}
-    for c in ("DEFAULT_POLICY_CRITERIA", "DEFAULT_POLICY_DEV_CRITERIA"):
-        m = re.search(r"pub\s+static\s+" + c + r"\s*:\s*CriteriaStr\s*=\s*(SAFE_TO_RUN|SAFE_TO_DEPLOY)\s*;", fmt)
+    with section(L, "heap key tuple order"):
+        pass
+        m = re.search(r"Reverse\(\(", sfp)
         if not m:
-            raise TranslateError(f"{c} not found")
-        L.append(f"Definition {c} : N := {idx[m.group(1)]}.")
-    L.append("")
-
-    # --- publisher window guards
-    build = fn_body(resolver, "build")
-    g = window_guards(build)
-    L.append("(* guards of wildcard-audit and trusted edge creation in AuditGraph::build *)")
-    L.append("Local Open Scope bool_scope.")
-    for nm, cond in zip(("wildcard_guard", "trusted_guard"), g):
-        L.append(f"(* {cond} *)")
-        L.append(f"Definition {nm} (e_user p_user : N) (e_start e_end p_when : Z) : bool :=\n  {tr_window(cond)}.")
-    L.append("")
-
-    # --- exclude handling in fetch_single_imported_audit
-    fsi = fn_body(storage, "fetch_single_imported_audit")
-    if not re.search(r"for\s+excluded\s+in\s+exclude\s*\{[^}]*audit_file\.audits\.remove\(excluded\)", fsi):
-        raise TranslateError("exclude no longer removes the excluded crates' audits in fetch_single_imported_audit")
-    keeps = not re.search(r"for\s+excluded\s+in\s+exclude\s*\{[^}]*audit_file\.wildcard_audits\.remove\(excluded\)", fsi)
-    L.append("(* does `exclude` leave the excluded crates' wildcard audits in the import? *)")
-    L.append(f"Definition EXCLUDE_KEEPS_WILDCARDS : bool := {'true' if keeps else 'false'}.")
-    L.append("")
-
-    # --- compute_suggest: does de-duplication merge the criteria of the dropped item?
-    cs = fn_body(resolver, "compute_suggest")
-    m = re.search(r"suggestions\.dedup_by\(", cs)
-    if not m:
-        raise TranslateError("compute_suggest no longer de-duplicates suggestions with dedup_by")
-    op = m.end() - 1
-    cp = match_brace(cs, op, "(", ")")
-    merges = bool(re.search(r"b\.suggested_criteria\.unioned_with\(\s*&a\.suggested_criteria\s*\)", cs[op:cp]))
-    L.append(f"Definition SUGGEST_DEDUP_MERGES_CRITERIA : bool := {'true' if merges else 'false'}.")
-    L.append("")
-
-    # --- which criteria reference sites Store::validate checks (and under which guard)
-    val = fn_body(storage, "validate")
-    loops = []
-    for m in re.finditer(r"\bfor\s+(.+?)\s+in\s+([^{]+?)\s*\{", val):
-        ob = m.end() - 1
-        loops.append((m.start(), match_brace(val, ob), re.sub(r"\s+", "", m.group(2))))
-    guards = []
-    for m in re.finditer(r"\bif\s+check_file_formatting\s*\{", val):
-        guards.append((m.start(), match_brace(val, m.end() - 1)))
-    SITE_BY_ITER = {
-        "&self.config.exemptions": "SExemption", "&self.audits.audits": "SAudit",
-        "&self.audits.wildcard_audits": "SWildcard", "&self.audits.trusted": "STrusted",
-        "&self.audits.criteria": "SImplies", "&policy.dependency_criteria": "SPolicyDep",
-        "&import.criteria_map": "SCriteriaMap", "audits_file.audits.values().flatten()": "SLockAudit",
-        "audits_file.wildcard_audits.values().flatten()": "SLockWildcard",
-    }
-    sites = {}
-    for m in re.finditer(r"\bcheck_criteria\(", val):
-        if val[max(0, m.start() - 3):m.start()] == "fn ":
-            continue
+            raise TranslateError("cannot find Node::key tuple")
         op = m.end() - 1
-        cp = match_brace(val, op, "(", ")")
-        args_ = [re.sub(r"\s+", "", a) for a in split_top(val[op + 1:cp]) if a.strip()]
-        if len(args_) != 4:
-            raise TranslateError(f"unexpected check_criteria call shape: {args_}")
-        arg = args_[3]
-        enclosing = sorted([l for l in loops if l[0] < m.start() < l[1]], key=lambda l: l[0])
-        site = None
-        if arg.startswith("policy.criteria"):
-            site = "SPolicy"
-        elif arg.startswith("policy.dev_criteria"):
-            site = "SPolicyDev"
-        else:
-            for l in reversed(enclosing):
-                if l[2] in SITE_BY_ITER:
-                    site = SITE_BY_ITER[l[2]]
-                    break
-        if site is None:
-            raise TranslateError(f"cannot classify check_criteria call with argument {arg!r} inside loops {[l[2] for l in enclosing]}")
-        guarded = any(g[0] < m.start() < g[1] for g in guards)
-        sites[site] = "locked" if guarded and sites.get(site) != "true" else "true"
-    ALL_SITES = ["SExemption", "SPolicy", "SPolicyDev", "SPolicyDep", "SImplies", "SAudit", "SWildcard", "STrusted",
-                 "SCriteriaMap", "SLockAudit", "SLockWildcard"]
-    L.append("(* criteria reference sites and whether Store::validate(.., check_file_formatting = locked) checks them *)")
-    L.append("Inductive site := " + " | ".join(ALL_SITES) + ".")
-    L.append("Definition validate_checks (locked : bool) (s : site) : bool :=")
-    L.append("  match s with")
-    for st in ALL_SITES:
-        L.append(f"  | {st} => {sites.get(st, 'false')}")
-    L.append("  end.")
-    L.append("")
+        cp = match_brace(sfp, op, "(", ")")
+        key = [re.sub(r"\s+", "", x) for x in split_top(sfp[op + 1:cp]) if x.strip()]
+        want_key = ["self.caveat_level", "self.version", "self.exemption_origin_version()",
+                    "self.path.len()", "self.path.last()"]
+        if key != want_key:
+            raise TranslateError(f"heap key changed: {key}")
+        L.append("(* Node::key is Reverse((caveat_level, version, exemption_origin_version, path.len(), path.last())) *)")
+        L.append("Definition HEAP_KEY_PRIMARY_IS_CAVEAT : bool := true.\n")
 
-    # --- is the criteria table itself checked before a CriteriaMapper is built from it?
-    criteria_rs = strip_comments(read("src/criteria.rs"))
-    table_fn_ok = False
-    if re.search(r"\bfn\s+check_criteria_table\b", criteria_rs):
-        cb = fn_body(criteria_rs, "check_criteria_table")
-        table_fn_ok = bool(re.search(r"for\s+builtin\s+in\s+\[\s*SAFE_TO_RUN\s*,\s*SAFE_TO_DEPLOY\s*\]", cb)) and \
-            bool(re.search(r"criteria\.contains_key\(\s*builtin\s*\)", cb)) and \
-            bool(re.search(r"criteria\.len\(\)\s*\+\s*2\s*>\s*MAX_CRITERIA", cb)) and \
-            bool(re.search(r"Some\(\s*Mark::InProgress\s*\)\s*=>\s*\{?\s*return\s+Err", cb))
-    vchecks = table_fn_ok and bool(re.search(
-        r"if\s+let\s+Err\(\s*message\s*\)\s*=\s*crate::criteria::check_criteria_table\(\s*&self\.audits\.criteria\s*\)\s*\{\s*"
-        r"errors\.push\(\s*StoreValidateError::InvalidCriteriaTable", val))
-    fsi = fn_body(storage, "fetch_single_imported_audit")
-    i_chk = fsi.find("check_criteria_table(&audit_file.criteria)")
-    i_new = fsi.find("CriteriaMapper::new(&audit_file.criteria)")
-    pchecks = table_fn_ok and 0 <= i_chk < i_new and bool(re.search(r"check_criteria_table\(&audit_file\.criteria\)\s*\.map_err\(", fsi)) \
-        and bool(re.search(r"\}\s*\)\s*\?\s*;\s*let\s+foreign_criteria_mapper", fsi))
-    L.append("(* Store::validate refuses an unusable criteria table (built-in redefined, too many criteria, implication cycle);")
-    L.append("   fetch_single_imported_audit does the same for a peer's table before building its mapper *)")
-    L.append(f"Definition VALIDATE_CHECKS_TABLE : bool := {'true' if vchecks else 'false'}.")
-    L.append(f"Definition PEER_TABLE_CHECKED : bool := {'true' if pchecks else 'false'}.")
-    L.append("")
+    with section(L, "DeltaEdgeOrigin / RequiredEntry orders"):
+        pass
+        deo = enum_variants(resolver, "DeltaEdgeOrigin")
+        want = ["StoredLocalAudit", "ImportedAudit", "WildcardAudit", "Trusted", "Exemption",
+                "Unpublished", "FreshExemption"]
+        if sorted(deo) != sorted(want):
+            raise TranslateError(f"DeltaEdgeOrigin variants changed: {deo}")
+        L.append("(* enum DeltaEdgeOrigin declaration order (derived Ord) *)")
+        for i, v in enumerate(deo):
+            L.append(f"Definition DEO_{v} : N := {i}.")
+        L.append("")
+        req = enum_variants(resolver, "RequiredEntry")
+        want = ["LocalAudit", "Audit", "WildcardAudit", "Publisher", "Exemption", "Unpublished", "FreshExemption"]
+        if sorted(req) != sorted(want):
+            raise TranslateError(f"RequiredEntry variants changed: {req}")
+        L.append("(* enum RequiredEntry declaration order (derived Ord) *)")
+        for i, v in enumerate(req):
+            L.append(f"Definition RE_{v} : N := {i}.")
+        L.append(f"Definition RE_FreshExemption_is_last : bool := {'true' if req[-1] == 'FreshExemption' else 'false'}.\n")
 
-    # --- unpack_package: shape facts
-    up = fn_body(storage, "unpack_package")
-    i_loop = up.find("for entry in tar.entries()")
-    i_lock = up.find("create_unpack_lock(unpack_dir)")
-    i_rm = up.find("fs::remove_dir_all(unpack_dir)")
-    i_prefix = up.find("entry_path.starts_with(prefix)")
-    i_unpack = up.find(".unpack_in(parent)")
-    if min(i_loop, i_lock, i_rm, i_prefix, i_unpack) < 0:
-        raise TranslateError("unpack_package no longer has the expected steps (remove stale dir, entry loop, prefix check, unpack_in, marker)")
-    if not (i_rm < i_loop < i_prefix < i_unpack < i_lock):
-        raise TranslateError("unpack_package: the order stale-dir removal < entry loop (prefix check < unpack_in) < marker creation changed")
-    loop_ob = up.find("{", i_loop)
-    loop_cb = match_brace(up, loop_ob)
-    if not (loop_cb < i_lock):
-        raise TranslateError("unpack_package: the completion marker is no longer written after the entry loop")
-    skips = bool(re.search(r"file_name\(\)\s*\.map_or\(\s*false\s*,\s*\|\w+\|\s*\w+\s*==\s*CARGO_OK_FILE\s*\)\s*\{\s*continue;", up[loop_ob:i_unpack]))
-    L.append("(* unpack_package: stale directory removed first, prefix check before unpack_in, marker after the loop *)")
-    L.append("Definition UNPACK_MARKER_AFTER_LOOP : bool := true.")
-    L.append(f"Definition UNPACK_SKIPS_MARKER_ENTRIES : bool := {'true' if skips else 'false'}.")
-    links = bool(re.search(r"entry_type\.is_symlink\(\)\s*\|\|\s*entry_type\.is_hard_link\(\)\s*\{\s*continue;", up[loop_ob:i_unpack]))
-    L.append(f"Definition UNPACK_SKIPS_LINK_ENTRIES : bool := {'true' if links else 'false'}.")
-    fio = fn_body(storage, "fetch_is_ok")
-    if not re.search(r"read_to_string\(fetch\.join\(CARGO_OK_FILE\)\)", fio) or "ok == CARGO_OK_BODY" not in fio:
-        raise TranslateError("fetch_is_ok no longer compares the marker file with CARGO_OK_BODY")
-    L.append("")
+    with section(L, "search modes + UpdateMode literals"):
+        pass
+        sm = enum_variants(resolver, "SearchMode")
+        if sm != ["PreferExemptions", "PreferFreshImports", "RegenerateExemptions"]:
+            raise TranslateError(f"SearchMode variants changed: {sm}")
+        L.append("Inductive search_mode := PreferExemptions | PreferFreshImports | RegenerateExemptions.")
+        L.append("Record update_mode := { um_search : search_mode; um_prune_exemptions : bool;")
+        L.append("                        um_prune_audits : bool; um_prune_imports : bool }.\n")
 
-    # --- store / cache locking: the order of lock, reads, writes and release
-    flock = strip_comments(read("src/flock.rs"))
-    sl = item_body(storage, r"\bimpl\s+StoreLock\s*\{", "impl StoreLock")
-    new_body = fn_body(sl, "new")
-    m_open = re.search(r"store\s*\.\s*(open_rw|open_ro)\s*\(\s*CONFIG_TOML", new_body)
-    if not m_open:
-        raise TranslateError("StoreLock::new no longer opens CONFIG_TOML through Filesystem::open_rw/open_ro")
+        def one(fn, name, params=()):
+            ms = update_modes(fn_body(mainrs, fn), fn)
+            if len(ms) != 1:
+                raise TranslateError(f"expected one UpdateMode literal in {fn}, found {len(ms)}")
+            L.append(f"(* {fn} *)")
+            L.append(coq_mode(name, params, ms[0]))
 
-    def lock_state(fn):
-        b = fn_body(flock, fn)
-        m = re.search(r"State::(Exclusive|Shared|Unlocked)", b)
-        if not m or not re.search(r"self\s*\.\s*open\s*\(", b):
-            raise TranslateError(f"flock.rs {fn} no longer delegates to Filesystem::open with a lock State")
-        return m.group(1)
-    open_body = fn_body(flock, "open")
-    arm = re.search(r"State::Exclusive\s*=>\s*\{", open_body)
-    if not arm:
-        raise TranslateError("Filesystem::open has no State::Exclusive arm")
-    arm_body = open_body[arm.end() - 1:match_brace(open_body, arm.end() - 1)]
-    excl_arm = bool(re.search(r"acquire\s*\(", arm_body)) and "lock_exclusive(&f)" in arm_body
-    sysmod = item_body(flock, r"#\[cfg\(unix\)\]\s*mod\s+sys\s*\{", "unix mod sys")
-    excl_sys = bool(re.search(r"flock\s*\(\s*file\s*,\s*libc::LOCK_EX\s*\)", fn_body(sysmod, "lock_exclusive"))) and \
-        bool(re.search(r"flock\s*\(\s*file\s*,\s*libc::LOCK_EX\s*\|\s*libc::LOCK_NB\s*\)", fn_body(sysmod, "try_lock_exclusive")))
-    # acquire(): a failed lock attempt must end in the blocking call (or an error), never in Ok without the lock
-    acq = fn_body(flock, "acquire")
-    blocks = bool(re.search(r"lock_block\(\)\?;\s*return\s+Ok\(\(\)\);", acq)) and \
-        bool(re.search(r"if\s*!\s*error_contended\(&e\)\s*\{\s*return\s+Err", acq))
-    drop_impl = item_body(flock, r"\bimpl\s+Drop\s+for\s+FileLock\s*\{", "impl Drop for FileLock")
-    drop_unlocks = "unlock(&f)" in drop_impl
+        one("cmd_init", "mode_init")
+        one("do_cmd_certify", "mode_certify", ("is_target",))
+        one("cmd_import", "mode_import")
+        one("apply_cmd_trust", "mode_trust", ("is_target",))
+        one("cmd_regenerate_imports", "mode_regenerate_imports")
+        one("cmd_regenerate_unpublished", "mode_regenerate_unpublished")
+        one("cmd_regenerate_exemptions", "mode_regenerate_exemptions")
+        one("cmd_prune", "mode_prune", ("no_imports", "no_exemptions", "no_audits"))
+        ms = update_modes(fn_body(mainrs, "cmd_check"), "cmd_check")
+        if len(ms) != 2:
+            raise TranslateError(f"expected two UpdateMode literals in cmd_check, found {len(ms)}")
+        L.append("(* cmd_check: the advisory get_store_updates, then the real update_store *)")
+        L.append(coq_mode("mode_check_advice", (), ms[0]))
+        L.append(coq_mode("mode_check_update", (), ms[1]))
+        # cmd_check commits only when the report has no errors
+        chk = fn_body(mainrs, "cmd_check")
+        if not re.search(r"if\s+report\.has_errors\(\)\s*\{\s*panic_any\(ExitPanic\(-1\)\);\s*\}\s*else\s*\{", chk):
+            raise TranslateError("cmd_check no longer has the `if report.has_errors() { panic_any(ExitPanic(-1)) } else {` shape")
+        L.append("Definition CHECK_COMMITS_ONLY_ON_SUCCESS : bool := true.\n")
 
-    def exclusive(fn):
-        return lock_state(fn) == "Exclusive" and excl_arm and excl_sys and blocks
-    store_excl = exclusive(m_open.group(1))
+    with section(L, "criteria constants"):
+        pass
+        if not re.search(r"const\s+MAX_CRITERIA\s*:\s*usize\s*=\s*u64::BITS\s+as\s+usize", criteria):
+            raise TranslateError("MAX_CRITERIA is no longer u64::BITS")
+        if not re.search(r"pub\s+struct\s+CriteriaSet\(u64\)", criteria):
+            raise TranslateError("CriteriaSet is no longer a u64")
+        L.append("Definition MAX_CRITERIA : nat := 64.")
+        m1 = re.search(r"const\s+SAFE_TO_RUN_IDX\s*:\s*usize\s*=\s*(\d+)", criteria)
+        m2 = re.search(r"const\s+SAFE_TO_DEPLOY_IDX\s*:\s*usize\s*=\s*(\d+)", criteria)
+        if not m1 or not m2:
+            raise TranslateError("builtin criteria indices not found")
+        L.append(f"Definition SAFE_TO_RUN_IDX : N := {m1.group(1)}.")
+        L.append(f"Definition SAFE_TO_DEPLOY_IDX : N := {m2.group(1)}.")
+        if not re.search(r"direct_implies\[SAFE_TO_DEPLOY_IDX\]\.set_criteria\(SAFE_TO_RUN_IDX\)", criteria):
+            raise TranslateError("safe-to-deploy => safe-to-run pre-population not found")
+        idx = {"SAFE_TO_RUN": "SAFE_TO_RUN_IDX", "SAFE_TO_DEPLOY": "SAFE_TO_DEPLOY_IDX"}
+        for c in ("DEFAULT_POLICY_CRITERIA", "DEFAULT_POLICY_DEV_CRITERIA"):
+            m = re.search(r"pub\s+static\s+" + c + r"\s*:\s*CriteriaStr\s*=\s*(SAFE_TO_RUN|SAFE_TO_DEPLOY)\s*;", fmt)
+            if not m:
+                raise TranslateError(f"{c} not found")
+            L.append(f"Definition {c} : N := {idx[m.group(1)]}.")
+        L.append("")
 
-    FILE_IDX = {"config": 0, "audits": 1, "imports": 2}
-    acq_off = fn_body(storage, "acquire_offline")
-    ev = []
-    m = re.search(r"StoreLock::new\(", acq_off)
-    if not m:
-        raise TranslateError("Store::acquire_offline no longer takes the StoreLock")
-    ev.append((m.start(), "ALock"))
-    for nm, ix in FILE_IDX.items():
-        ms = list(re.finditer(r"lock\.read_%s\(\)" % nm, acq_off))
-        if len(ms) != 1:
-            raise TranslateError(f"Store::acquire_offline: expected exactly one lock.read_{nm}()")
-        ev.append((ms[0].start(), f"ARead {ix}"))
-    for mm in re.finditer(r"\bdrop\(\s*lock\s*\)", acq_off):
-        ev.append((mm.start(), "AUnlock"))
-    m = re.search(r"lock:\s*Some\(lock\)", acq_off)
-    if not m:
-        raise TranslateError("Store::acquire_offline no longer keeps the lock in the returned Store")
-    acquire_acts = [a for _, a in sorted(ev)]
+    with section(L, "publisher window guards"):
+        pass
+        build = fn_body(resolver, "build")
+        g = window_guards(build)
+        L.append("(* guards of wildcard-audit and trusted edge creation in AuditGraph::build *)")
+        L.append("Local Open Scope bool_scope.")
+        for nm, cond in zip(("wildcard_guard", "trusted_guard"), g):
+            L.append(f"(* {cond} *)")
+            L.append(f"Definition {nm} (e_user p_user : N) (e_start e_end p_when : Z) : bool :=\n  {tr_window(cond)}.")
+        L.append("")
 
-    com = fn_body(storage, "commit")
-    m = re.search(r"if\s+let\s+Some\(lock\)\s*=\s*self\.lock\s*\{", com)
-    if not m:
-        raise TranslateError("Store::commit no longer takes the lock out of the Store for the duration of the writes")
-    blk_end = match_brace(com, m.end() - 1)
-    blk = com[m.end():blk_end]
-    ev = []
-    handles = {}
-    for nm, ix in FILE_IDX.items():
-        ms = list(re.finditer(r"let\s+mut\s+(\w+)\s*=\s*lock\.write_%s\(\)" % nm, blk))
-        if len(ms) != 1:
-            raise TranslateError(f"Store::commit: expected exactly one lock.write_{nm}()")
-        handles[ms[0].group(1)] = ix
-    for h, ix in handles.items():
-        ws = list(re.finditer(r"\b%s\.write_all\(" % h, blk))
-        if not ws:
-            raise TranslateError(f"Store::commit: handle {h} is never written")
-        ev.append((ws[-1].start(), f"AWrite {ix}"))
-    for mm in re.finditer(r"\bdrop\(\s*lock\s*\)", blk):
-        ev.append((mm.start(), "AUnlock"))
-    if not any(a == "AUnlock" for _, a in ev):
-        ev.append((len(blk), "AUnlock"))            # `lock` goes out of scope at the end of the block
-    for nm in FILE_IDX:
-        if re.search(r"write_%s\(\)" % nm, com[:m.start()] + com[blk_end:]):
-            raise TranslateError("Store::commit writes a store file outside the block that holds the lock")
-    commit_acts = [a for _, a in sorted(ev)]
+    with section(L, "exclude handling in fetch_single_imported_audit"):
+        pass
+        fsi = fn_body(storage, "fetch_single_imported_audit")
+        if not re.search(r"for\s+excluded\s+in\s+exclude\s*\{[^}]*audit_file\.audits\.remove\(excluded\)", fsi):
+            raise TranslateError("exclude no longer removes the excluded crates' audits in fetch_single_imported_audit")
+        keeps = not re.search(r"for\s+excluded\s+in\s+exclude\s*\{[^}]*audit_file\.wildcard_audits\.remove\(excluded\)", fsi)
+        L.append("(* does `exclude` leave the excluded crates' wildcard audits in the import? *)")
+        L.append(f"Definition EXCLUDE_KEEPS_WILDCARDS : bool := {'true' if keeps else 'false'}.")
+        L.append("")
 
-    cache_acq = fn_body(item_body(storage, r"\bimpl\s+Cache\s*\{", "impl Cache"), "acquire")
-    m = re.search(r"\.\s*(open_rw|open_ro)\s*\(\s*CACHE_VET_LOCK", cache_acq)
-    if not m:
-        raise TranslateError("Cache::acquire no longer locks CACHE_VET_LOCK")
-    i_lock = m.start()
-    first_io = min([x for x in (cache_acq.find("File::open("), cache_acq.find("load_toml("), cache_acq.find("load_json(")) if x >= 0] or [-1])
-    cache_lock_first = 0 <= i_lock < first_io and bool(re.search(r"_lock:\s*Some\(lock\)", cache_acq))
-    cache_excl = exclusive(m.group(1)) and cache_lock_first
-    cache_struct = item_body(storage, r"\bpub\s+struct\s+Cache\s*\{", "struct Cache")
-    if not re.search(r"_lock:\s*Option<FileLock>", cache_struct):
-        raise TranslateError("struct Cache no longer owns its FileLock")
+    with section(L, "compute_suggest: does de-duplication merge the criteria of the dropped item?"):
+        pass
+        cs = fn_body(resolver, "compute_suggest")
+        m = re.search(r"suggestions\.dedup_by\(", cs)
+        if not m:
+            raise TranslateError("compute_suggest no longer de-duplicates suggestions with dedup_by")
+        op = m.end() - 1
+        cp = match_brace(cs, op, "(", ")")
+        merges = bool(re.search(r"b\.suggested_criteria\.unioned_with\(\s*&a\.suggested_criteria\s*\)", cs[op:cp]))
+        L.append(f"Definition SUGGEST_DEDUP_MERGES_CRITERIA : bool := {'true' if merges else 'false'}.")
+        L.append("")
 
-    L.append("(* store locking: Store::acquire_offline / Store::commit as sequences of lock, read, write and")
-    L.append("   release actions (file 0 = config.toml, 1 = audits.toml, 2 = imports.lock), in source order;")
-    L.append("   AWrite f stands at the last write_all of file f, AUnlock where the StoreLock value dies *)")
-    L.append("Inductive act := ALock | ARead (f : nat) | AWrite (f : nat) | AUnlock.")
-    L.append("Definition STORE_ACQUIRE_ACTS : list act := [" + "; ".join(acquire_acts) + "].")
-    L.append("Definition STORE_COMMIT_ACTS : list act := [" + "; ".join(commit_acts) + "].")
-    L.append(f"Definition STORE_LOCK_EXCLUSIVE : bool := {'true' if store_excl else 'false'}.")
-    L.append(f"Definition CACHE_LOCK_EXCLUSIVE : bool := {'true' if cache_excl else 'false'}.")
-    L.append(f"Definition FILELOCK_DROP_UNLOCKS : bool := {'true' if drop_unlocks else 'false'}.")
-    L.append("")
-
-    # --- the caveat level of an edge (search_for_path): translated arm by arm
-    sfp = fn_body(resolver, "search_for_path")
-    m = re.search(r"let\s+edge_caveat_level\s*=\s*match\s*&edge\.origin\s*\{", sfp)
-    if not m:
-        raise TranslateError("search_for_path: `let edge_caveat_level = match &edge.origin {` not found")
-    ob = m.end() - 1
-    body = sfp[ob + 1:match_brace(sfp, ob)]
-
-    def split_arms(b):
-        """top-level arms `pattern [if guard] => expr` of a match body"""
-        arms, depth, cur, i = [], 0, "", 0
-        while i < len(b):
-            ch = b[i]
-            if ch in "{([":
-                depth += 1
-            elif ch in "})]":
-                depth -= 1
-                if depth == 0 and ch == "}" and "=>" in cur:
-                    cur += ch
-                    # a block arm ends at its closing brace (an optional comma follows)
-                    j = i + 1
-                    while j < len(b) and b[j] in " \n\t":
-                        j += 1
-                    if j < len(b) and b[j] == ",":
-                        j += 1
-                    arms.append(cur.strip())
-                    cur = ""
-                    i = j
-                    continue
-            elif ch == "," and depth == 0:
-                if cur.strip():
-                    arms.append(cur.strip())
-                cur = ""
-                i += 1
+    with section(L, "which criteria reference sites Store::validate checks (and under which guard)"):
+        pass
+        val = fn_body(storage, "validate")
+        loops = []
+        for m in re.finditer(r"\bfor\s+(.+?)\s+in\s+([^{]+?)\s*\{", val):
+            ob = m.end() - 1
+            loops.append((m.start(), match_brace(val, ob), re.sub(r"\s+", "", m.group(2))))
+        guards = []
+        for m in re.finditer(r"\bif\s+check_file_formatting\s*\{", val):
+            guards.append((m.start(), match_brace(val, m.end() - 1)))
+        SITE_BY_ITER = {
+            "&self.config.exemptions": "SExemption", "&self.audits.audits": "SAudit",
+            "&self.audits.wildcard_audits": "SWildcard", "&self.audits.trusted": "STrusted",
+            "&self.audits.criteria": "SImplies", "&policy.dependency_criteria": "SPolicyDep",
+            "&import.criteria_map": "SCriteriaMap", "audits_file.audits.values().flatten()": "SLockAudit",
+            "audits_file.wildcard_audits.values().flatten()": "SLockWildcard",
+        }
+        sites = {}
+        for m in re.finditer(r"\bcheck_criteria\(", val):
+            if val[max(0, m.start() - 3):m.start()] == "fn ":
                 continue
-            cur += ch
-            i += 1
-        if cur.strip():
-            arms.append(cur.strip())
-        out = []
-        for a in arms:
-            pat, _, expr = a.partition("=>")
-            pat, _, guard = pat.partition(" if ")
-            expr = expr.strip()
-            if expr.startswith("{") and expr.endswith("}") and not expr.startswith("match"):
-                expr = expr[1:-1].strip()
-            out.append((pat.strip(), guard.strip(), expr))
-        return out
-
-    def level(e):
-        mm = re.fullmatch(r"CaveatLevel::(\w+)", e.strip())
-        if mm:
-            return "CV_" + mm.group(1)
-        if e.strip() == "unreachable!()":
-            return "CV_FreshExemption"      # never a stored edge; the model's synthetic edge carries this level
-        raise TranslateError(f"edge_caveat_level: cannot translate result {e!r}")
-
-    def guard_cond(g):
-        g = g.strip()
-        if not g:
-            return None
-        if g == "!importable":
-            return "negb importable"
-        mm = re.fullmatch(r"mode\s*==\s*SearchMode::(\w+)", g)
-        if mm:
-            return f"smode_eqb m {mm.group(1)}"
-        if g == "!edge.freshness.is_fresh()":
-            return "negb (efresh_is_fresh f)"
-        if g == "edge.freshness.is_fresh()":
-            return "efresh_is_fresh f"
-        raise TranslateError(f"edge_caveat_level: cannot translate guard {g!r}")
-
-    def conj(cs):
-        cs = [c for c in cs if c]
-        return " && ".join(f"({c})" for c in cs) if cs else "true"
-
-    def tr_inner(expr):
-        mm = re.match(r"match\s+(mode|edge\.freshness)\s*\{", expr)
-        if not mm:
-            return level(expr)
-        ob2 = mm.end() - 1
-        arms2 = split_arms(expr[ob2 + 1:match_brace(expr, ob2)])
-        txt = None
-        for pat, guard, e in reversed(arms2):
-            if mm.group(1) == "mode":
-                pm = re.fullmatch(r"SearchMode::(\w+)", pat)
-                pc = f"smode_eqb m {pm.group(1)}" if pm else (None if pat == "_" else "?")
+            op = m.end() - 1
+            cp = match_brace(val, op, "(", ")")
+            args_ = [re.sub(r"\s+", "", a) for a in split_top(val[op + 1:cp]) if a.strip()]
+            if len(args_) != 4:
+                raise TranslateError(f"unexpected check_criteria call shape: {args_}")
+            arg = args_[3]
+            enclosing = sorted([l for l in loops if l[0] < m.start() < l[1]], key=lambda l: l[0])
+            site = None
+            if arg.startswith("policy.criteria"):
+                site = "SPolicy"
+            elif arg.startswith("policy.dev_criteria"):
+                site = "SPolicyDev"
             else:
-                pm = re.fullmatch(r"DeltaEdgeFreshness::(\w+)", pat)
-                pc = f"efresh_eqb f EF_{pm.group(1)}" if pm else (None if pat == "_" else "?")
-            if pc == "?":
+                for l in reversed(enclosing):
+                    if l[2] in SITE_BY_ITER:
+                        site = SITE_BY_ITER[l[2]]
+                        break
+            if site is None:
+                raise TranslateError(f"cannot classify check_criteria call with argument {arg!r} inside loops {[l[2] for l in enclosing]}")
+            guarded = any(g[0] < m.start() < g[1] for g in guards)
+            sites[site] = "locked" if guarded and sites.get(site) != "true" else "true"
+        ALL_SITES = ["SExemption", "SPolicy", "SPolicyDev", "SPolicyDep", "SImplies", "SAudit", "SWildcard", "STrusted",
+                     "SCriteriaMap", "SLockAudit", "SLockWildcard"]
+        L.append("(* criteria reference sites and whether Store::validate(.., check_file_formatting = locked) checks them *)")
+        L.append("Inductive site := " + " | ".join(ALL_SITES) + ".")
+        L.append("Definition validate_checks (locked : bool) (s : site) : bool :=")
+        L.append("  match s with")
+        for st in ALL_SITES:
+            L.append(f"  | {st} => {sites.get(st, 'false')}")
+        L.append("  end.")
+        L.append("")
+
+    with section(L, "is the criteria table itself checked before a CriteriaMapper is built from it?"):
+        pass
+        criteria_rs = strip_comments(read("src/criteria.rs"))
+        table_fn_ok = False
+        if re.search(r"\bfn\s+check_criteria_table\b", criteria_rs):
+            cb = fn_body(criteria_rs, "check_criteria_table")
+            table_fn_ok = bool(re.search(r"for\s+builtin\s+in\s+\[\s*SAFE_TO_RUN\s*,\s*SAFE_TO_DEPLOY\s*\]", cb)) and \
+                bool(re.search(r"criteria\.contains_key\(\s*builtin\s*\)", cb)) and \
+                bool(re.search(r"criteria\.len\(\)\s*\+\s*2\s*>\s*MAX_CRITERIA", cb)) and \
+                bool(re.search(r"Some\(\s*Mark::InProgress\s*\)\s*=>\s*\{?\s*return\s+Err", cb))
+        vchecks = table_fn_ok and bool(re.search(
+            r"if\s+let\s+Err\(\s*message\s*\)\s*=\s*crate::criteria::check_criteria_table\(\s*&self\.audits\.criteria\s*\)\s*\{\s*"
+            r"errors\.push\(\s*StoreValidateError::InvalidCriteriaTable", val))
+        fsi = fn_body(storage, "fetch_single_imported_audit")
+        i_chk = fsi.find("check_criteria_table(&audit_file.criteria)")
+        i_new = fsi.find("CriteriaMapper::new(&audit_file.criteria)")
+        pchecks = table_fn_ok and 0 <= i_chk < i_new and bool(re.search(r"check_criteria_table\(&audit_file\.criteria\)\s*\.map_err\(", fsi)) \
+            and bool(re.search(r"\}\s*\)\s*\?\s*;\s*let\s+foreign_criteria_mapper", fsi))
+        L.append("(* Store::validate refuses an unusable criteria table (built-in redefined, too many criteria, implication cycle);")
+        L.append("   fetch_single_imported_audit does the same for a peer's table before building its mapper *)")
+        L.append(f"Definition VALIDATE_CHECKS_TABLE : bool := {'true' if vchecks else 'false'}.")
+        L.append(f"Definition PEER_TABLE_CHECKED : bool := {'true' if pchecks else 'false'}.")
+        L.append("")
+
+    with section(L, "unpack_package: shape facts"):
+        pass
+        up = fn_body(storage, "unpack_package")
+        i_loop = up.find("for entry in tar.entries()")
+        i_lock = up.find("create_unpack_lock(unpack_dir)")
+        i_rm = up.find("fs::remove_dir_all(unpack_dir)")
+        i_prefix = up.find("entry_path.starts_with(prefix)")
+        i_unpack = up.find(".unpack_in(parent)")
+        if min(i_loop, i_lock, i_rm, i_prefix, i_unpack) < 0:
+            raise TranslateError("unpack_package no longer has the expected steps (remove stale dir, entry loop, prefix check, unpack_in, marker)")
+        if not (i_rm < i_loop < i_prefix < i_unpack < i_lock):
+            raise TranslateError("unpack_package: the order stale-dir removal < entry loop (prefix check < unpack_in) < marker creation changed")
+        loop_ob = up.find("{", i_loop)
+        loop_cb = match_brace(up, loop_ob)
+        if not (loop_cb < i_lock):
+            raise TranslateError("unpack_package: the completion marker is no longer written after the entry loop")
+        skips = bool(re.search(r"file_name\(\)\s*\.map_or\(\s*false\s*,\s*\|\w+\|\s*\w+\s*==\s*CARGO_OK_FILE\s*\)\s*\{\s*continue;", up[loop_ob:i_unpack]))
+        L.append("(* unpack_package: stale directory removed first, prefix check before unpack_in, marker after the loop *)")
+        L.append("Definition UNPACK_MARKER_AFTER_LOOP : bool := true.")
+        L.append(f"Definition UNPACK_SKIPS_MARKER_ENTRIES : bool := {'true' if skips else 'false'}.")
+        links = bool(re.search(r"entry_type\.is_symlink\(\)\s*\|\|\s*entry_type\.is_hard_link\(\)\s*\{\s*continue;", up[loop_ob:i_unpack]))
+        L.append(f"Definition UNPACK_SKIPS_LINK_ENTRIES : bool := {'true' if links else 'false'}.")
+        fio = fn_body(storage, "fetch_is_ok")
+        if not re.search(r"read_to_string\(fetch\.join\(CARGO_OK_FILE\)\)", fio) or "ok == CARGO_OK_BODY" not in fio:
+            raise TranslateError("fetch_is_ok no longer compares the marker file with CARGO_OK_BODY")
+        L.append("")
+
+    with section(L, "store / cache locking: the order of lock, reads, writes and release"):
+        pass
+        flock = strip_comments(read("src/flock.rs"))
+        sl = item_body(storage, r"\bimpl\s+StoreLock\s*\{", "impl StoreLock")
+        new_body = fn_body(sl, "new")
+        m_open = re.search(r"store\s*\.\s*(open_rw|open_ro)\s*\(\s*CONFIG_TOML", new_body)
+        if not m_open:
+            raise TranslateError("StoreLock::new no longer opens CONFIG_TOML through Filesystem::open_rw/open_ro")
+
+        def lock_state(fn):
+            b = fn_body(flock, fn)
+            m = re.search(r"State::(Exclusive|Shared|Unlocked)", b)
+            if not m or not re.search(r"self\s*\.\s*open\s*\(", b):
+                raise TranslateError(f"flock.rs {fn} no longer delegates to Filesystem::open with a lock State")
+            return m.group(1)
+        open_body = fn_body(flock, "open")
+        arm = re.search(r"State::Exclusive\s*=>\s*\{", open_body)
+        if not arm:
+            raise TranslateError("Filesystem::open has no State::Exclusive arm")
+        arm_body = open_body[arm.end() - 1:match_brace(open_body, arm.end() - 1)]
+        excl_arm = bool(re.search(r"acquire\s*\(", arm_body)) and "lock_exclusive(&f)" in arm_body
+        sysmod = item_body(flock, r"#\[cfg\(unix\)\]\s*mod\s+sys\s*\{", "unix mod sys")
+        excl_sys = bool(re.search(r"flock\s*\(\s*file\s*,\s*libc::LOCK_EX\s*\)", fn_body(sysmod, "lock_exclusive"))) and \
+            bool(re.search(r"flock\s*\(\s*file\s*,\s*libc::LOCK_EX\s*\|\s*libc::LOCK_NB\s*\)", fn_body(sysmod, "try_lock_exclusive")))
+        # acquire(): a failed lock attempt must end in the blocking call (or an error), never in Ok without the lock
+        acq = fn_body(flock, "acquire")
+        blocks = bool(re.search(r"lock_block\(\)\?;\s*return\s+Ok\(\(\)\);", acq)) and \
+            bool(re.search(r"if\s*!\s*error_contended\(&e\)\s*\{\s*return\s+Err", acq))
+        drop_impl = item_body(flock, r"\bimpl\s+Drop\s+for\s+FileLock\s*\{", "impl Drop for FileLock")
+        drop_unlocks = "unlock(&f)" in drop_impl
+
+        def exclusive(fn):
+            return lock_state(fn) == "Exclusive" and excl_arm and excl_sys and blocks
+        store_excl = exclusive(m_open.group(1))
+
+        FILE_IDX = {"config": 0, "audits": 1, "imports": 2}
+        acq_off = fn_body(storage, "acquire_offline")
+        ev = []
+        m = re.search(r"StoreLock::new\(", acq_off)
+        if not m:
+            raise TranslateError("Store::acquire_offline no longer takes the StoreLock")
+        ev.append((m.start(), "ALock"))
+        for nm, ix in FILE_IDX.items():
+            ms = list(re.finditer(r"lock\.read_%s\(\)" % nm, acq_off))
+            if len(ms) != 1:
+                raise TranslateError(f"Store::acquire_offline: expected exactly one lock.read_{nm}()")
+            ev.append((ms[0].start(), f"ARead {ix}"))
+        for mm in re.finditer(r"\bdrop\(\s*lock\s*\)", acq_off):
+            ev.append((mm.start(), "AUnlock"))
+        m = re.search(r"lock:\s*Some\(lock\)", acq_off)
+        if not m:
+            raise TranslateError("Store::acquire_offline no longer keeps the lock in the returned Store")
+        acquire_acts = [a for _, a in sorted(ev)]
+
+        com = fn_body(storage, "commit")
+        m = re.search(r"if\s+let\s+Some\(lock\)\s*=\s*self\.lock\s*\{", com)
+        if not m:
+            raise TranslateError("Store::commit no longer takes the lock out of the Store for the duration of the writes")
+        blk_end = match_brace(com, m.end() - 1)
+        blk = com[m.end():blk_end]
+        ev = []
+        handles = {}
+        for nm, ix in FILE_IDX.items():
+            ms = list(re.finditer(r"let\s+mut\s+(\w+)\s*=\s*lock\.write_%s\(\)" % nm, blk))
+            if len(ms) != 1:
+                raise TranslateError(f"Store::commit: expected exactly one lock.write_{nm}()")
+            handles[ms[0].group(1)] = ix
+        for h, ix in handles.items():
+            ws = list(re.finditer(r"\b%s\.write_all\(" % h, blk))
+            if not ws:
+                raise TranslateError(f"Store::commit: handle {h} is never written")
+            ev.append((ws[-1].start(), f"AWrite {ix}"))
+        for mm in re.finditer(r"\bdrop\(\s*lock\s*\)", blk):
+            ev.append((mm.start(), "AUnlock"))
+        if not any(a == "AUnlock" for _, a in ev):
+            ev.append((len(blk), "AUnlock"))            # `lock` goes out of scope at the end of the block
+        for nm in FILE_IDX:
+            if re.search(r"write_%s\(\)" % nm, com[:m.start()] + com[blk_end:]):
+                raise TranslateError("Store::commit writes a store file outside the block that holds the lock")
+        commit_acts = [a for _, a in sorted(ev)]
+
+        cache_acq = fn_body(item_body(storage, r"\bimpl\s+Cache\s*\{", "impl Cache"), "acquire")
+        m = re.search(r"\.\s*(open_rw|open_ro)\s*\(\s*CACHE_VET_LOCK", cache_acq)
+        if not m:
+            raise TranslateError("Cache::acquire no longer locks CACHE_VET_LOCK")
+        i_lock = m.start()
+        first_io = min([x for x in (cache_acq.find("File::open("), cache_acq.find("load_toml("), cache_acq.find("load_json(")) if x >= 0] or [-1])
+        cache_lock_first = 0 <= i_lock < first_io and bool(re.search(r"_lock:\s*Some\(lock\)", cache_acq))
+        cache_excl = exclusive(m.group(1)) and cache_lock_first
+        cache_struct = item_body(storage, r"\bpub\s+struct\s+Cache\s*\{", "struct Cache")
+        if not re.search(r"_lock:\s*Option<FileLock>", cache_struct):
+            raise TranslateError("struct Cache no longer owns its FileLock")
+
+        L.append("(* store locking: Store::acquire_offline / Store::commit as sequences of lock, read, write and")
+        L.append("   release actions (file 0 = config.toml, 1 = audits.toml, 2 = imports.lock), in source order;")
+        L.append("   AWrite f stands at the last write_all of file f, AUnlock where the StoreLock value dies *)")
+        L.append("Inductive act := ALock | ARead (f : nat) | AWrite (f : nat) | AUnlock.")
+        L.append("Definition STORE_ACQUIRE_ACTS : list act := [" + "; ".join(acquire_acts) + "].")
+        L.append("Definition STORE_COMMIT_ACTS : list act := [" + "; ".join(commit_acts) + "].")
+        L.append(f"Definition STORE_LOCK_EXCLUSIVE : bool := {'true' if store_excl else 'false'}.")
+        L.append(f"Definition CACHE_LOCK_EXCLUSIVE : bool := {'true' if cache_excl else 'false'}.")
+        L.append(f"Definition FILELOCK_DROP_UNLOCKS : bool := {'true' if drop_unlocks else 'false'}.")
+        L.append("")
+
+    with section(L, "the caveat level of an edge (search_for_path): translated arm by arm"):
+        pass
+        sfp = fn_body(resolver, "search_for_path")
+        m = re.search(r"let\s+edge_caveat_level\s*=\s*match\s*&edge\.origin\s*\{", sfp)
+        if not m:
+            raise TranslateError("search_for_path: `let edge_caveat_level = match &edge.origin {` not found")
+        ob = m.end() - 1
+        body = sfp[ob + 1:match_brace(sfp, ob)]
+
+        def split_arms(b):
+            """top-level arms `pattern [if guard] => expr` of a match body"""
+            arms, depth, cur, i = [], 0, "", 0
+            while i < len(b):
+                ch = b[i]
+                if ch in "{([":
+                    depth += 1
+                elif ch in "})]":
+                    depth -= 1
+                    if depth == 0 and ch == "}" and "=>" in cur:
+                        cur += ch
+                        # a block arm ends at its closing brace (an optional comma follows)
+                        j = i + 1
+                        while j < len(b) and b[j] in " \n\t":
+                            j += 1
+                        if j < len(b) and b[j] == ",":
+                            j += 1
+                        arms.append(cur.strip())
+                        cur = ""
+                        i = j
+                        continue
+                elif ch == "," and depth == 0:
+                    if cur.strip():
+                        arms.append(cur.strip())
+                    cur = ""
+                    i += 1
+                    continue
+                cur += ch
+                i += 1
+            if cur.strip():
+                arms.append(cur.strip())
+            out = []
+            for a in arms:
+                pat, _, expr = a.partition("=>")
+                pat, _, guard = pat.partition(" if ")
+                expr = expr.strip()
+                if expr.startswith("{") and expr.endswith("}") and not expr.startswith("match"):
+                    expr = expr[1:-1].strip()
+                out.append((pat.strip(), guard.strip(), expr))
+            return out
+
+        def level(e):
+            mm = re.fullmatch(r"CaveatLevel::(\w+)", e.strip())
+            if mm:
+                return "CV_" + mm.group(1)
+            if e.strip() == "unreachable!()":
+                return "CV_FreshExemption"      # never a stored edge; the model's synthetic edge carries this level
+            raise TranslateError(f"edge_caveat_level: cannot translate result {e!r}")
+
+        def guard_cond(g):
+            g = g.strip()
+            if not g:
+                return None
+            if g == "!importable":
+                return "negb importable"
+            mm = re.fullmatch(r"mode\s*==\s*SearchMode::(\w+)", g)
+            if mm:
+                return f"smode_eqb m {mm.group(1)}"
+            if g == "!edge.freshness.is_fresh()":
+                return "negb (efresh_is_fresh f)"
+            if g == "edge.freshness.is_fresh()":
+                return "efresh_is_fresh f"
+            raise TranslateError(f"edge_caveat_level: cannot translate guard {g!r}")
+
+        def conj(cs):
+            cs = [c for c in cs if c]
+            return " && ".join(f"({c})" for c in cs) if cs else "true"
+
+        def tr_inner(expr):
+            mm = re.match(r"match\s+(mode|edge\.freshness)\s*\{", expr)
+            if not mm:
+                return level(expr)
+            ob2 = mm.end() - 1
+            arms2 = split_arms(expr[ob2 + 1:match_brace(expr, ob2)])
+            txt = None
+            for pat, guard, e in reversed(arms2):
+                if mm.group(1) == "mode":
+                    pm = re.fullmatch(r"SearchMode::(\w+)", pat)
+                    pc = f"smode_eqb m {pm.group(1)}" if pm else (None if pat == "_" else "?")
+                else:
+                    pm = re.fullmatch(r"DeltaEdgeFreshness::(\w+)", pat)
+                    pc = f"efresh_eqb f EF_{pm.group(1)}" if pm else (None if pat == "_" else "?")
+                if pc == "?":
+                    raise TranslateError(f"edge_caveat_level: cannot translate pattern {pat!r}")
+                c = conj([pc, guard_cond(guard)])
+                txt = tr_inner(e) if (c == "true" and txt is None) else f"if {c} then {tr_inner(e)} else {txt if txt is not None else 'CV_None'}"
+            return txt
+
+        ORIGIN_KIND = {"StoredLocalAudit": "OK_LocalAudit", "ImportedAudit": "OK_Imported", "WildcardAudit": "OK_Wildcard",
+                       "Trusted": "OK_Trusted", "Exemption": "OK_Exemption", "Unpublished": "OK_Unpublished",
+                       "FreshExemption": "OK_FreshExemption"}
+        txt = None
+        for pat, guard, e in reversed(split_arms(body)):
+            pm = re.match(r"DeltaEdgeOrigin::(\w+)", pat)
+            if pm:
+                if pm.group(1) not in ORIGIN_KIND:
+                    raise TranslateError(f"edge_caveat_level: unknown origin {pm.group(1)}")
+                pc = f"okind_eqb k {ORIGIN_KIND[pm.group(1)]}"
+            elif pat == "_":
+                pc = None
+            else:
                 raise TranslateError(f"edge_caveat_level: cannot translate pattern {pat!r}")
             c = conj([pc, guard_cond(guard)])
-            txt = tr_inner(e) if (c == "true" and txt is None) else f"if {c} then {tr_inner(e)} else {txt if txt is not None else 'CV_None'}"
-        return txt
+            txt = tr_inner(e) if (c == "true" and txt is None) else f"if {c} then {tr_inner(e)} else ({txt if txt is not None else 'CV_None'})"
+        L.append("(* the caveat level an edge adds (resolver.rs search_for_path), translated arm by arm, in arm order *)")
+        L.append("Inductive okind := OK_LocalAudit | OK_Imported | OK_Wildcard | OK_Trusted | OK_Exemption | OK_Unpublished | OK_FreshExemption.")
+        L.append("Inductive efresh := EF_Stale | EF_FreshPublisher | EF_Fresh.")
+        L.append("Definition okind_eqb (a b : okind) : bool := match a, b with OK_LocalAudit, OK_LocalAudit | OK_Imported, OK_Imported | OK_Wildcard, OK_Wildcard | OK_Trusted, OK_Trusted | OK_Exemption, OK_Exemption | OK_Unpublished, OK_Unpublished | OK_FreshExemption, OK_FreshExemption => true | _, _ => false end.")
+        L.append("Definition efresh_eqb (a b : efresh) : bool := match a, b with EF_Stale, EF_Stale | EF_FreshPublisher, EF_FreshPublisher | EF_Fresh, EF_Fresh => true | _, _ => false end.")
+        L.append("Definition efresh_is_fresh (f : efresh) : bool := match f with EF_Stale => false | _ => true end.")
+        L.append("Definition smode_eqb (a b : search_mode) : bool := match a, b with PreferExemptions, PreferExemptions | PreferFreshImports, PreferFreshImports | RegenerateExemptions, RegenerateExemptions => true | _, _ => false end.")
+        L.append("Definition edge_caveat_src (m : search_mode) (k : okind) (importable : bool) (f : efresh) : N :=")
+        L.append("  " + txt + ".")
+        L.append("")
 
-    ORIGIN_KIND = {"StoredLocalAudit": "OK_LocalAudit", "ImportedAudit": "OK_Imported", "WildcardAudit": "OK_Wildcard",
-                   "Trusted": "OK_Trusted", "Exemption": "OK_Exemption", "Unpublished": "OK_Unpublished",
-                   "FreshExemption": "OK_FreshExemption"}
-    txt = None
-    for pat, guard, e in reversed(split_arms(body)):
-        pm = re.match(r"DeltaEdgeOrigin::(\w+)", pat)
-        if pm:
-            if pm.group(1) not in ORIGIN_KIND:
-                raise TranslateError(f"edge_caveat_level: unknown origin {pm.group(1)}")
-            pc = f"okind_eqb k {ORIGIN_KIND[pm.group(1)]}"
-        elif pat == "_":
-            pc = None
-        else:
-            raise TranslateError(f"edge_caveat_level: cannot translate pattern {pat!r}")
-        c = conj([pc, guard_cond(guard)])
-        txt = tr_inner(e) if (c == "true" and txt is None) else f"if {c} then {tr_inner(e)} else ({txt if txt is not None else 'CV_None'})"
-    L.append("(* the caveat level an edge adds (resolver.rs search_for_path), translated arm by arm, in arm order *)")
-    L.append("Inductive okind := OK_LocalAudit | OK_Imported | OK_Wildcard | OK_Trusted | OK_Exemption | OK_Unpublished | OK_FreshExemption.")
-    L.append("Inductive efresh := EF_Stale | EF_FreshPublisher | EF_Fresh.")
-    L.append("Definition okind_eqb (a b : okind) : bool := match a, b with OK_LocalAudit, OK_LocalAudit | OK_Imported, OK_Imported | OK_Wildcard, OK_Wildcard | OK_Trusted, OK_Trusted | OK_Exemption, OK_Exemption | OK_Unpublished, OK_Unpublished | OK_FreshExemption, OK_FreshExemption => true | _, _ => false end.")
-    L.append("Definition efresh_eqb (a b : efresh) : bool := match a, b with EF_Stale, EF_Stale | EF_FreshPublisher, EF_FreshPublisher | EF_Fresh, EF_Fresh => true | _, _ => false end.")
-    L.append("Definition efresh_is_fresh (f : efresh) : bool := match f with EF_Stale => false | _ => true end.")
-    L.append("Definition smode_eqb (a b : search_mode) : bool := match a, b with PreferExemptions, PreferExemptions | PreferFreshImports, PreferFreshImports | RegenerateExemptions, RegenerateExemptions => true | _, _ => false end.")
-    L.append("Definition edge_caveat_src (m : search_mode) (k : okind) (importable : bool) (f : efresh) : N :=")
-    L.append("  " + txt + ".")
-    L.append("")
+    with section(L, "which edges a search may follow (the criterion filter of search_for_path)"):
+        pass
+        m = re.search(r"let\s+allow_any_criteria\s*=\s*mode\s*==\s*SearchMode::(\w+)\s*&&\s*matches!\(\s*edge\.origin\s*,\s*DeltaEdgeOrigin::(\w+)\s*\{\s*\.\.\s*\}\s*\)\s*;", sfp)
+        if not m or m.group(2) not in ORIGIN_KIND:
+            raise TranslateError("search_for_path: `let allow_any_criteria = mode == .. && matches!(edge.origin, ..)` not found")
+        if not re.search(r"if\s*!\s*allow_any_criteria\s*&&\s*!\s*edge\.criteria\.has_criteria\(\s*criteria_idx\s*\)\s*\{[^}]*continue;", sfp):
+            raise TranslateError("search_for_path: the edge filter `if !allow_any_criteria && !edge.criteria.has_criteria(criteria_idx) { continue; }` changed")
+        if not re.search(r"if\s+visited\.contains\(\s*&edge\.version\s*\)\s*\{[^}]*continue;", sfp):
+            raise TranslateError("search_for_path: an edge to an already visited version must be skipped with `continue`")
+        L.append("(* an edge is followed when it carries the criterion, or (regenerating exemptions) when it is an exemption *)")
+        L.append(f"Definition usable_src (m : search_mode) (k : okind) (has_criterion : bool) : bool :=")
+        L.append(f"  (smode_eqb m {m.group(1)} && okind_eqb k {ORIGIN_KIND[m.group(2)]}) || has_criterion.")
+        L.append("")
 
-    # --- which edges a search may follow (the criterion filter of search_for_path)
-    m = re.search(r"let\s+allow_any_criteria\s*=\s*mode\s*==\s*SearchMode::(\w+)\s*&&\s*matches!\(\s*edge\.origin\s*,\s*DeltaEdgeOrigin::(\w+)\s*\{\s*\.\.\s*\}\s*\)\s*;", sfp)
-    if not m or m.group(2) not in ORIGIN_KIND:
-        raise TranslateError("search_for_path: `let allow_any_criteria = mode == .. && matches!(edge.origin, ..)` not found")
-    if not re.search(r"if\s*!\s*allow_any_criteria\s*&&\s*!\s*edge\.criteria\.has_criteria\(\s*criteria_idx\s*\)\s*\{[^}]*continue;", sfp):
-        raise TranslateError("search_for_path: the edge filter `if !allow_any_criteria && !edge.criteria.has_criteria(criteria_idx) { continue; }` changed")
-    if not re.search(r"if\s+visited\.contains\(\s*&edge\.version\s*\)\s*\{[^}]*continue;", sfp):
-        raise TranslateError("search_for_path: an edge to an already visited version must be skipped with `continue`")
-    L.append("(* an edge is followed when it carries the criterion, or (regenerating exemptions) when it is an exemption *)")
-    L.append(f"Definition usable_src (m : search_mode) (k : okind) (has_criterion : bool) : bool :=")
-    L.append(f"  (smode_eqb m {m.group(1)} && okind_eqb k {ORIGIN_KIND[m.group(2)]}) || has_criterion.")
-    L.append("")
+    with section(L, "which RequiredEntry kinds each path origin records (resolve_package_required_entries)"):
+        pass
+        rre = fn_body(resolver, "resolve_package_required_entries")
+        m = re.search(r"for\s+origin\s+in\s+path\s*\{\s*match\s+origin\s*\{", rre)
+        if not m:
+            raise TranslateError("resolve_package_required_entries: `for origin in path { match origin {` not found")
+        ob = m.end() - 1
+        mbody = rre[ob + 1:match_brace(rre, ob)]
+        REQ_KIND = {"LocalAudit": "RK_LocalAudit", "Audit": "RK_Audit", "WildcardAudit": "RK_Wildcard", "Publisher": "RK_Publisher",
+                    "Exemption": "RK_Exemption", "Unpublished": "RK_Unpublished", "FreshExemption": "RK_FreshExemption"}
+        rows = {}
+        pos = 0
+        for am in re.finditer(r"DeltaEdgeOrigin::(\w+)\s*\{[^}]*\}\s*=>\s*\{", mbody):
+            b0 = am.end() - 1
+            blk = mbody[b0 + 1:match_brace(mbody, b0)]
+            cond_spans = []
+            for cm in re.finditer(r"if\s+let\s+Some\(\s*import_index\s*\)\s*=\s*import_index\s*\{", blk):
+                c0 = cm.end() - 1
+                cond_spans.append((c0, match_brace(blk, c0)))
+            ents = []
+            for em in re.finditer(r"add_entry\(\s*RequiredEntry::(\w+)", blk):
+                if em.group(1) not in REQ_KIND:
+                    raise TranslateError(f"unknown RequiredEntry::{em.group(1)}")
+                conditional = any(a <= em.start() <= b for a, b in cond_spans)
+                ents.append(f"({REQ_KIND[em.group(1)]}, {'true' if conditional else 'false'})")
+            if am.group(1) not in ORIGIN_KIND:
+                raise TranslateError(f"unknown DeltaEdgeOrigin::{am.group(1)} in resolve_package_required_entries")
+            rows[ORIGIN_KIND[am.group(1)]] = ents
+        missing = [k for k in ORIGIN_KIND.values() if k not in rows]
+        if missing:
+            raise TranslateError(f"resolve_package_required_entries: no arm for {missing}")
+        L.append("(* the RequiredEntry kinds recorded for each origin on a chosen path; the flag says `only when the wildcard")
+        L.append("   audit is an imported one` (if let Some(import_index)) *)")
+        L.append("Inductive rkind := RK_LocalAudit | RK_Audit | RK_Wildcard | RK_Publisher | RK_Exemption | RK_Unpublished | RK_FreshExemption.")
+        L.append("Definition required_kinds_src (k : okind) : list (rkind * bool) :=")
+        L.append("  match k with")
+        for k in ORIGIN_KIND.values():
+            L.append(f"  | {k} => [" + "; ".join(rows[k]) + "]")
+        L.append("  end.")
+        L.append("")
 
-    # --- which RequiredEntry kinds each path origin records (resolve_package_required_entries)
-    rre = fn_body(resolver, "resolve_package_required_entries")
-    m = re.search(r"for\s+origin\s+in\s+path\s*\{\s*match\s+origin\s*\{", rre)
-    if not m:
-        raise TranslateError("resolve_package_required_entries: `for origin in path { match origin {` not found")
-    ob = m.end() - 1
-    mbody = rre[ob + 1:match_brace(rre, ob)]
-    REQ_KIND = {"LocalAudit": "RK_LocalAudit", "Audit": "RK_Audit", "WildcardAudit": "RK_Wildcard", "Publisher": "RK_Publisher",
-                "Exemption": "RK_Exemption", "Unpublished": "RK_Unpublished", "FreshExemption": "RK_FreshExemption"}
-    rows = {}
-    pos = 0
-    for am in re.finditer(r"DeltaEdgeOrigin::(\w+)\s*\{[^}]*\}\s*=>\s*\{", mbody):
-        b0 = am.end() - 1
-        blk = mbody[b0 + 1:match_brace(mbody, b0)]
-        cond_spans = []
-        for cm in re.finditer(r"if\s+let\s+Some\(\s*import_index\s*\)\s*=\s*import_index\s*\{", blk):
-            c0 = cm.end() - 1
-            cond_spans.append((c0, match_brace(blk, c0)))
-        ents = []
-        for em in re.finditer(r"add_entry\(\s*RequiredEntry::(\w+)", blk):
-            if em.group(1) not in REQ_KIND:
-                raise TranslateError(f"unknown RequiredEntry::{em.group(1)}")
-            conditional = any(a <= em.start() <= b for a, b in cond_spans)
-            ents.append(f"({REQ_KIND[em.group(1)]}, {'true' if conditional else 'false'})")
-        if am.group(1) not in ORIGIN_KIND:
-            raise TranslateError(f"unknown DeltaEdgeOrigin::{am.group(1)} in resolve_package_required_entries")
-        rows[ORIGIN_KIND[am.group(1)]] = ents
-    missing = [k for k in ORIGIN_KIND.values() if k not in rows]
-    if missing:
-        raise TranslateError(f"resolve_package_required_entries: no arm for {missing}")
-    L.append("(* the RequiredEntry kinds recorded for each origin on a chosen path; the flag says `only when the wildcard")
-    L.append("   audit is an imported one` (if let Some(import_index)) *)")
-    L.append("Inductive rkind := RK_LocalAudit | RK_Audit | RK_Wildcard | RK_Publisher | RK_Exemption | RK_Unpublished | RK_FreshExemption.")
-    L.append("Definition required_kinds_src (k : okind) : list (rkind * bool) :=")
-    L.append("  match k with")
-    for k in ORIGIN_KIND.values():
-        L.append(f"  | {k} => [" + "; ".join(rows[k]) + "]")
-    L.append("  end.")
-    L.append("")
+    with section(L, "[policy] table keys (serialization.rs mod policy)"):
+        pass
+        ser = strip_comments(read("src/serialization.rs"))
+        polmod = item_body(ser, r"\bpub\s+mod\s+policy\s*\{", "serialization::policy")
+        if not re.search(r"split_once\(\s*VERSION_SEPARATOR\s*\)", polmod) or not re.search(r"crate_version\s*\.\s*parse\(\)", polmod):
+            raise TranslateError("policy keys are no longer parsed by split_once(VERSION_SEPARATOR) + VetVersion::from_str")
+        if const_str(polmod, "VERSION_SEPARATOR") != ":":
+            raise TranslateError("policy key separator is no longer ':'")
+        full = bool(re.search(r"for\s*\(\s*version\s*,\s*entry\s*\)\s*in\s+version\s*\{\s*ret\s*\.\s*insert\(\s*"
+                              r"format!\(\s*\"\{name\}\{VERSION_SEPARATOR\}\{version\}\"\s*\)\s*,\s*entry\s*,?\s*\)", polmod))
+        L.append("(* the key of a versioned policy entry is written from the whole VetVersion (semver and git revision) *)")
+        L.append(f"Definition POLICY_KEY_USES_FULL_VERSION : bool := {'true' if full else 'false'}.")
+        L.append("")
 
-    # --- [policy] table keys (serialization.rs mod policy)
-    ser = strip_comments(read("src/serialization.rs"))
-    polmod = item_body(ser, r"\bpub\s+mod\s+policy\s*\{", "serialization::policy")
-    if not re.search(r"split_once\(\s*VERSION_SEPARATOR\s*\)", polmod) or not re.search(r"crate_version\s*\.\s*parse\(\)", polmod):
-        raise TranslateError("policy keys are no longer parsed by split_once(VERSION_SEPARATOR) + VetVersion::from_str")
-    if const_str(polmod, "VERSION_SEPARATOR") != ":":
-        raise TranslateError("policy key separator is no longer ':'")
-    full = bool(re.search(r"for\s*\(\s*version\s*,\s*entry\s*\)\s*in\s+version\s*\{\s*ret\s*\.\s*insert\(\s*"
-                          r"format!\(\s*\"\{name\}\{VERSION_SEPARATOR\}\{version\}\"\s*\)\s*,\s*entry\s*,?\s*\)", polmod))
-    L.append("(* the key of a versioned policy entry is written from the whole VetVersion (semver and git revision) *)")
-    L.append(f"Definition POLICY_KEY_USES_FULL_VERSION : bool := {'true' if full else 'false'}.")
-    L.append("")
-
-    # --- storage constants
-    m = re.search(r"let\s+max_end_date\s*=\s*today\s*\+\s*chrono::Months::new\((\d+)\)", storage)
-    if not m:
-        raise TranslateError("max_end_date computation not found in Store::validate")
-    L.append(f"Definition WILDCARD_MAX_END_MONTHS : N := {m.group(1)}.")
-    if not re.search(r"if\s+entry\.end\s*>\s*max_end_date", storage):
-        raise TranslateError("wildcard end-date cap comparison changed")
-    L.append("Definition wildcard_end_refused (e_end max_end : Z) : bool := Z.ltb max_end e_end.")
-    L.append(f"(* CARGO_OK_FILE = {const_str(storage, 'CARGO_OK_FILE')!r}, CARGO_OK_BODY = {const_str(storage, 'CARGO_OK_BODY')!r} *)")
-    L.append("")
+    with section(L, "storage constants"):
+        pass
+        m = re.search(r"let\s+max_end_date\s*=\s*today\s*\+\s*chrono::Months::new\((\d+)\)", storage)
+        if not m:
+            raise TranslateError("max_end_date computation not found in Store::validate")
+        L.append(f"Definition WILDCARD_MAX_END_MONTHS : N := {m.group(1)}.")
+        if not re.search(r"if\s+entry\.end\s*>\s*max_end_date", storage):
+            raise TranslateError("wildcard end-date cap comparison changed")
+        L.append("Definition wildcard_end_refused (e_end max_end : Z) : bool := Z.ltb max_end e_end.")
+        L.append(f"(* CARGO_OK_FILE = {const_str(storage, 'CARGO_OK_FILE')!r}, CARGO_OK_BODY = {const_str(storage, 'CARGO_OK_BODY')!r} *)")
+        L.append("")
 
     text = "\n".join(L) + "\n"
     tmp = out_path + ".tmp"
@@ -825,3 +868,6 @@ if __name__ == "__main__":
     except TranslateError as e:
         print(f"translate.py: {e}", file=sys.stderr)
         sys.exit(2)
+    for e in ERRORS:
+        # not fatal: Extracted.v was written without these facts; the files that need them will not compile
+        print(f"translate.py: NOT TRANSLATED: {e}", file=sys.stderr)
